@@ -9,6 +9,7 @@ import (
 	"math"
 	"net"
 	"os"
+	"os/exec"
 	"os/signal"
 	"regexp"
 	"sort"
@@ -375,6 +376,10 @@ type Terminal struct {
 	sigstop            bool
 	startChan          chan fitpad
 	killChan           chan bool
+	previewMutex       sync.Mutex
+	previewCmd         *exec.Cmd
+	previewTempFiles   []string
+	previewQuit        bool
 	serverInputChan    chan []*action
 	keyChan            chan tui.Event
 	eventChan          chan tui.Event
@@ -4481,7 +4486,20 @@ func (t *Terminal) Loop() error {
 					eofChan := make(chan bool)
 					finishChan := make(chan bool, 1)
 					verifPoint("preview.before_start", 0)
+					// Keep track of the running command so that it can be killed
+					// and its temporary files removed when fzf exits
+					t.previewMutex.Lock()
+					if t.previewQuit {
+						t.previewMutex.Unlock()
+						removeFiles(tempFiles)
+						break
+					}
 					err := cmd.Start()
+					if err == nil {
+						t.previewCmd = cmd
+						t.previewTempFiles = tempFiles
+					}
+					t.previewMutex.Unlock()
 					if err == nil {
 						verifTrace("preview.start", cmd.Process.Pid, int(version), "")
 						verifPoint("preview.started", 0)
@@ -4600,6 +4618,10 @@ func (t *Terminal) Loop() error {
 						<-reapChan         // Goroutine 2 and 3 finished
 						<-reapChan
 						verifTrace("preview.exit", cmd.Process.Pid, int(version), "")
+						t.previewMutex.Lock()
+						t.previewCmd = nil
+						t.previewTempFiles = nil
+						t.previewMutex.Unlock()
 						removeFiles(tempFiles)
 					} else {
 						// Failed to start the command. Report the error immediately.
@@ -4797,6 +4819,15 @@ func (t *Terminal) Loop() error {
 			})
 		}
 
+		// The process may exit before the watcher goroutine gets to kill the
+		// preview command, so do it here
+		t.previewMutex.Lock()
+		t.previewQuit = true
+		if t.previewCmd != nil {
+			util.KillCommand(t.previewCmd)
+			removeFiles(t.previewTempFiles)
+		}
+		t.previewMutex.Unlock()
 		t.eventBox.Set(EvtQuit, quitSignal{code, nil})
 		t.running.Set(false)
 		t.killPreview()
